@@ -35,6 +35,7 @@ import (
 func init() { RegisterSub("C20", "codecs", RunC20) }
 
 var c20Codecs = []string{"snappy", "gzip", "brotli", "zstd", "lz4", "uncompressed"}
+
 // dst shapes for Decode (sizes relative to the decoded length and to len(src)) ...
 var c20DstKinds = []string{"nil", "zero", "smallcap", "smalllen", "exactcap", "exactlen", "exactm1", "exactp1", "large", "largelen",
 	"srccap", "srclen", "srcm1", "srcp1", "srcp15", "srchalf", "prev"}
@@ -604,6 +605,7 @@ func RunC20(ctx *core.Ctx) {
 	// formats, around the size of the output itself) and, rotating, every Decode dst shape: the
 	// region between "dst can hold the input" and "dst can hold the output" is where an encoder
 	// that trusts the caller's buffer gives up silently. One fresh codec value per (length, kind).
+	nHangDirected := len(scs) // the scenarios before this point carry short hang limits: own batches
 	sweepLens := []int{0, 1, 15, 16, 17, 100, 254, 255, 256, 4096, 65536}
 	for _, codec := range c20Codecs {
 		for li, n := range sweepLens {
@@ -614,7 +616,7 @@ func RunC20(ctx *core.Ctx) {
 						EDst: ed, DDst: c20DstKinds[(ei+li+ki)%(len(c20DstKinds)-1)]})
 				}
 				ctx.Hist("c20.capacity-sweep", codec+"/"+kind)
-				add(c20Scenario{Codec: codec, Level: li + ki, Ops: ops, TimeoutMs: 20000})
+				add(c20Scenario{Codec: codec, Level: li + ki, Ops: ops, TimeoutMs: 60000}) // capacities, not hangs, are the subject
 			}
 		}
 	}
@@ -737,7 +739,7 @@ func RunC20(ctx *core.Ctx) {
 		id++
 		jobs <- large[i : i+1]
 	}
-	for _, part := range [][]c20Scenario{scs[:nDirected], rest} {
+	for _, part := range [][]c20Scenario{scs[:nHangDirected], scs[nHangDirected:nDirected], rest} {
 		for i := 0; i < len(part); i += batch {
 			j := i + batch
 			if j > len(part) {
@@ -750,7 +752,7 @@ func RunC20(ctx *core.Ctx) {
 	rp := &c20Reporter{ctx: ctx, perPrelim: map[string]int{}, memMB: memMB, opTimeout: opTimeout}
 	var lz4L2 []c20Lz4Obs
 	var blockObs []c20BlockObs
-	nLargeObs := 0
+	nLargeObs, nBigGzip := 0, 0
 	var mu sync.Mutex
 	var wg sync.WaitGroup
 	nw := runtime.GOMAXPROCS(0)
@@ -784,6 +786,14 @@ func RunC20(ctx *core.Ctx) {
 					if o.line != nil {
 						for i, res := range o.line.Results {
 							if res.Enc != "" {
+								if o.sc.Codec == "gzip" && o.sc.Ops[i].In.Len > 1<<17 {
+									// a small gzip stream may stand for megabytes: the Lean reader takes
+									// ~0.5 s per MiB of output, so only a sample of those
+									if nBigGzip >= 24 {
+										continue
+									}
+									nBigGzip++
+								}
 								if len(res.Enc) > 8192 {
 									if nLargeObs >= 1500 { // bound the memory held for the spec-decoder pass
 										continue
@@ -1012,7 +1022,7 @@ type c20BlockObs struct {
 // decoders (in a worker).
 func c20BlockFormats(ctx *core.Ctx, obs []c20BlockObs, rp *c20Reporter) {
 	t0 := time.Now()
-	nd := 4
+	nd := 8
 	var wg sync.WaitGroup
 	for w := 0; w < nd; w++ {
 		wg.Add(1)
